@@ -720,13 +720,13 @@ Definition dec_interval (cs : coders) (ncomp : nat) (js : list nat) (d : list Z)
   end.
 
 (* split into intervals of n blocks (n = Ri * blocks per MCU; n = 0: one interval) *)
-Fixpoint chunks {A} (fuel : nat) (n : nat) (l : list A) : list (list A) :=
+Fixpoint chunks {A} (fuel : nat) (n : Z) (l : list A) : list (list A) :=
   match fuel with
   | O => [l]
-  | S f => if (length l <=? n)%nat then [l] else firstn n l :: chunks f n (skipn n l)
+  | S f => if lenZ l <=? n then [l] else firstn (Z.to_nat n) l :: chunks f n (skipn (Z.to_nat n) l)
   end.
-Definition intervals {A} (n : nat) (l : list A) : list (list A) :=
-  match n with O => [l] | _ => chunks (length l) n l end.
+Definition intervals {A} (n : Z) (l : list A) : list (list A) :=
+  if n <=? 0 then [l] else chunks (length l) n l.
 
 Fixpoint map_opt {A B} (f : A -> option B) (l : list A) : option (list B) :=
   match l with
@@ -734,7 +734,7 @@ Fixpoint map_opt {A B} (f : A -> option B) (l : list A) : option (list B) :=
   | x :: t => match f x, map_opt f t with Some y, Some r => Some (y :: r) | _, _ => None end
   end.
 
-Definition enc_scan (cs : coders) (ncomp : nat) (per : nat) (blocks : list (nat * list Z)) : option (list (list Z)) :=
+Definition enc_scan (cs : coders) (ncomp : nat) (per : Z) (blocks : list (nat * list Z)) : option (list (list Z)) :=
   map_opt (enc_interval cs ncomp) (intervals per blocks).
 
 Fixpoint dec_intervals (cs : coders) (ncomp : nat) (jss : list (list nat)) (ds : list (list Z))
@@ -749,7 +749,7 @@ Fixpoint dec_intervals (cs : coders) (ncomp : nat) (jss : list (list nat)) (ds :
   | _, _ => None        (* number of restart intervals differs from ceil(MCUs / Ri) *)
   end.
 
-Definition dec_scan (cs : coders) (ncomp : nat) (per : nat) (js : list nat) (ds : list (list Z))
+Definition dec_scan (cs : coders) (ncomp : nat) (per : Z) (js : list nat) (ds : list (list Z))
   : option (list (nat * list Z)) :=
   dec_intervals cs ncomp (intervals per js) ds.
 
@@ -858,7 +858,7 @@ Definition d_step (st : dstate) (s : segment) : option dstate :=
           let cs := map (fun i : nat * Z * Z * Z * Z => let '(_, _, _, td, ta) := i in
                            (get_coder (ds_dc st) td, get_coder (ds_ac st) ta)) info in
           let pos := scan_positions g hv in
-          let per := Z.to_nat (ds_ri st * blocks_per_mcu hv) in
+          let per := ds_ri st * blocks_per_mcu hv in
           match dec_scan cs (length sc) per (map (fun p : nat * Z * Z => let '(j, _, _) := p in j) pos)
                          (first :: map snd rest) with
           | None => None
@@ -948,7 +948,7 @@ Definition w_step (im : image) (st : dstate) (it : item) : option (dstate * (nat
         let cs := map (fun i : nat * Z * Z * Z * Z => let '(_, _, _, td, ta) := i in
                          (get_coder (ds_dc st) td, get_coder (ds_ac st) ta)) info in
         let pos := scan_positions g hv in
-        let per := Z.to_nat (ds_ri st * blocks_per_mcu hv) in
+        let per := ds_ri st * blocks_per_mcu hv in
         let blocks := map (fun p : nat * Z * Z =>
                              let '(j, r, c) := p in
                              let '(i, h, _, _, _) := nth j info (O, 0, 0, 0, 0) in
